@@ -244,6 +244,55 @@ def extract(repo: Path) -> dict:
                        for c in ast.walk(st)):
                     push_under_stop_lock = True
                     push_after_running_test = seen_test
+    # every call of a method / hook of the live object, and every attribute read on it, in rpc.py and context.py
+    object_calls, object_reads, object_passed = [], [], []
+    for f in (pkg / "core" / "rpc.py", pkg / "core" / "context.py"):
+        with warnings.catch_warnings():
+            warnings.simplefilter("ignore")
+            tree = ast.parse(f.read_text(), filename=str(f))
+        w2 = _Walker(f.stem)
+        w2.visit(tree)
+        par2 = _parents(tree)
+
+        holds = [False]     # inside a function whose local `rpc_object` is bound to the live object
+
+        def binds_object(fn) -> bool:
+            for n in ast.walk(fn):
+                if isinstance(n, ast.Assign) and any(isinstance(t, ast.Name) and t.id == "rpc_object" for t in n.targets):
+                    v = n.value
+                    if _is_self_attr(v, "_rpc_object"):
+                        return True
+                    if isinstance(v, ast.Call) and isinstance(v.func, ast.Attribute) and v.func.attr in ("rpc_object", "_rpc_object_maker"):
+                        return True
+            return False
+
+        def is_object(e):
+            return _is_self_attr(e, "_rpc_object") or (holds[-1] and isinstance(e, ast.Name) and e.id == "rpc_object")
+
+        stack = []
+
+        def walk(node):
+            named = isinstance(node, (ast.ClassDef, ast.FunctionDef, ast.AsyncFunctionDef))
+            if named:
+                stack.append(node.name)
+                holds.append(isinstance(node, (ast.FunctionDef, ast.AsyncFunctionDef)) and binds_object(node))
+            if isinstance(node, ast.Attribute) and is_object(node.value):
+                site = f"{f.stem}:{_qual(stack)}"
+                parent = par2.get(node)
+                if isinstance(parent, ast.Call) and parent.func is node:
+                    object_calls.append((site, node.attr))
+                else:
+                    object_reads.append((site, node.attr))
+            if isinstance(node, ast.Call):
+                for a in node.args:
+                    if is_object(a):
+                        object_passed.append((f"{f.stem}:{_qual(stack)}", ast.unparse(node.func)))
+            for c in ast.iter_child_nodes(node):
+                walk(c)
+            if named:
+                stack.pop()
+                holds.pop()
+        walk(tree)
     # proxy side: what the public paths of the proxies hand out
     penter = rpc_walker.funcs.get("QMI_RpcProxy.__enter__")
     if penter is None:
@@ -274,6 +323,9 @@ def extract(repo: Path) -> dict:
                             "reference:" + ast.unparse(v))
                     proxy_returns.append((q.split(".")[1], kind))
     return {
+        "objectCalls": sorted(set(object_calls)),
+        "objectReads": sorted(set(object_reads)),
+        "objectPassedTo": sorted(set(object_passed)),
         "proxyEnterReturns": enter_returns,
         "proxyForwardTargets": forward_targets,
         "proxyOtherReturns": sorted(set(proxy_returns)),
@@ -332,6 +384,9 @@ def render(t: dict) -> str:
          f"    noNestedScope := {_b(t['noNestedScope'])}",
          f"    shutdownCheckedBeforePop := {_b(t['shutdownCheckedBeforePop'])}",
          f"    handlerCallsInRun := {t['handlerCallsInRun']}",
+         f"    objectCalls := {_plist(t['objectCalls'])}",
+         f"    objectReads := {_plist(t['objectReads'])}",
+         f"    objectPassedTo := {_plist(t['objectPassedTo'])}",
          f"    proxyEnterReturns := {_slist(t['proxyEnterReturns'])}",
          f"    proxyForwardTargets := {_plist(t['proxyForwardTargets'])}",
          f"    proxyOtherReturns := {_plist(t['proxyOtherReturns'])} }}",
